@@ -40,6 +40,13 @@ def check(ck):
     ck.rule('R05.8', 'get_in and hierarchy_depth, with which steps and their flow entries are found, keep their recursion skeleton')
     H.get_in_shape(ck, 'R05.8')
     H.hierarchy_depth_shape(ck, 'R05.8')
+    from . import c16
+    ck.shared('R05.9', 'a step keeps its flow entry when the hierarchy is '
+              'built: _generate_paths records the flow entry found under '
+              "the step's own key at its own level (nested compartments "
+              'descend with their part of the flow), so that a store-built '
+              'engine, a move and a division find the dependencies again',
+              c16.r16_8_paths)
 
 
 def _loop_of(x, stop):
@@ -452,7 +459,7 @@ def r05_5(ck):
                    'graph registration only for steps with a flow entry',
                    '_step_graph.add is reachable with a None flow entry', a)
         deps = A.arg_of(a, 1, 'dependencies')
-        ok = A.is_name(A.arg_of(a, 0), pathv) and derives(
+        ok = A.is_name(A.arg_of(a, 0, 'path'), pathv) and derives(
             f.node, deps, lambda x: isinstance(x, ast.Call) and A.call_name(
                 x) == 'normalize_path', at=a)
         ck.require(ok, 'R05.5', f, a,
